@@ -46,6 +46,7 @@ def rpms_case(case):
             cells.add((op["variant"], op["arch"]))
         else:
             refuses("add-invalid[%s]" % op.get("break"), (ValueError, TypeError), mf.rpm_call, rpms, op)
+            refuses("add-invalid-retried[%s]" % op.get("break"), (ValueError, TypeError), mf.rpm_call, rpms, op)      # asked again, refused again
             refused += 1
             after += 1 if accepted else 0
         d = diff(model, rpms.rpms)
@@ -70,6 +71,7 @@ def modules_case(case):
             cells.add((op["variant"], op["arch"]))
         else:
             refuses("add-invalid[%s]" % op.get("break"), (ValueError, TypeError), caller.call, mods, op)
+            refuses("add-invalid-retried[%s]" % op.get("break"), (ValueError, TypeError), caller.call, mods, op)      # asked again, refused again
             refused += 1
             after += 1 if accepted else 0
         d = diff(model, mods.modules)
@@ -94,6 +96,7 @@ def extra_case(case):
             cells.add((op["variant"], op["arch"]))
         else:
             refuses("add-invalid[%s]" % op.get("break"), (ValueError, TypeError), mf.extra_call, ef, op)
+            refuses("add-invalid-retried[%s]" % op.get("break"), (ValueError, TypeError), mf.extra_call, ef, op)      # asked again, refused again
             refused += 1
             after += 1 if accepted else 0
         d = diff(model, ef.extra_files)
